@@ -31,7 +31,7 @@
     (v) shape/frame lemmas of the other operations. *)
 From DV Require Import Model.Base Model.NameCheck Model.Parser Model.Header Model.Readers Model.Uncompress
   Model.Mutate Model.Compress Model.Renamer Spec.PacketSpec Spec.RecordSpec Spec.PlainSpec Proofs.Hoare Proofs.HeaderBits Proofs.InsertLemmas Proofs.EdnsPlain Proofs.WalkSkip
-  Proofs.PlainWf Proofs.ViewAfter Proofs.InsertSpec Proofs.HeaderInv Proofs.CursorHist Proofs.DecompressFirst Proofs.FreshHist.
+  Proofs.PlainWf Proofs.ViewAfter Proofs.InsertSpec Proofs.HeaderInv Proofs.CursorHist Proofs.DecompressFirst Proofs.FreshHist Proofs.DeleteInv Proofs.SetNameInv Proofs.WalkInv Proofs.RenameCursor.
 
 Theorem C08_decompression_keeps_edns_summary : forall p v q v',
   bytes_ok p -> parse p = Ok v -> uncompress p = Ok q -> parse q = Ok v' ->
@@ -292,3 +292,34 @@ Proof.
   cbv zeta. eexists. eexists. split; [vm_compute; reflexivity|]. split; [exists 33152%N; split; [exists 129%N, 128%N; repeat split|reflexivity]|].
   vm_compute. reflexivity.
 Qed.
+
+(** the cursor after an owner-name change ("an iterator that changed a record's name still designates that record, and
+    advancing it yields the record that followed"): on an object satisfying the invariant, after a successful owner-name
+    change through a cursor on the (non-OPT) record [(r, x)] of section [sec], the object still satisfies the invariant, its
+    section reads as the same records before, the renamed record (same type, class, TTL and data, new labels) at the same
+    offset, and the same records after (each possibly at a shifted position - [unpl] forgets positions); the cursor is the
+    cursor on the renamed record with the same count of records left *)
+Theorem C08_cursor_after_rename : forall nm v sec l1 r x l2 n s' qls qt lA lN lR,
+  dinv v -> bytes_ok nm -> reading (pp_packet v) qls qt lA lN lR -> sec = SAnswer \/ sec = SNameServers \/ sec = SAdditional ->
+  sec_list sec lA lN lR = l1 ++ (r, x) :: l2 -> is_opt r = false ->
+  m_set_raw_name nm (v, cur_on sec r n) = (s', Ok tt) ->
+  exists lA' lN' lR' l1' r' l2' ls,
+    dinv (fst s') /\ reading (pp_packet (fst s')) qls qt lA' lN' lR' /\ sec_list sec lA' lN' lR' = l1' ++ (r', x) :: l2' /\
+    map unpl l1' = map unpl l1 /\ map unpl l2' = map unpl l2 /\ unpl (r', x) = unpl (with_labels (r, x) ls) /\ name_ok ls /\
+    rv_off r' = rv_off r /\ snd s' = cur_on sec r' n.
+Proof. exact rename_keeps_cursor. Qed.
+Print Assumptions C08_cursor_after_rename.
+
+(** ... and advancing that cursor (the [next] that does not skip OPT; the skipping one is characterised from it by
+    C11_next_skips_opt) yields the cursor on the record that followed, or the end of the section *)
+Theorem C08_next_after_rename : forall nm v sec l1 r x l2 s' qls qt lA lN lR,
+  dinv v -> bytes_ok nm -> reading (pp_packet v) qls qt lA lN lR -> sec = SAnswer \/ sec = SNameServers \/ sec = SAdditional ->
+  sec_list sec lA lN lR = l1 ++ (r, x) :: l2 -> is_opt r = false ->
+  m_set_raw_name nm (v, cur_on sec r (length l2)) = (s', Ok tt) ->
+  exists lA' lN' lR' l1' r' l2',
+    reading (pp_packet (fst s')) qls qt lA' lN' lR' /\ sec_list sec lA' lN' lR' = l1' ++ (r', x) :: l2' /\
+    map unpl l1' = map unpl l1 /\ map unpl l2' = map unpl l2 /\
+    r_next_including_opt (fst s') (snd s') =
+      Ok (match l2' with [] => None | rx2 :: l3 => Some (cur_on sec (fst rx2) (length l3)) end).
+Proof. exact rename_then_next. Qed.
+Print Assumptions C08_next_after_rename.
